@@ -96,6 +96,13 @@ pub struct Inner {
     pub timer_done_gen: u64,
     pub fired: usize,
     pub timer_parked: bool,
+    /// the coroutine the timer thread has resumed on its own stack and not yet got back from
+    pub timer_host_vid: Option<usize>,
+    pub dbg_last_idle: (u64, usize),
+    /// add_gen the latest timer that was due at once (deadline <= now when added) will have
+    pub due_at_once: u64,
+    /// workers chosen by `place` for a coroutine that has not been resumed there yet (vid 0 = the note is still to come)
+    pub placed: Vec<(usize, usize)>,
     pub add_gen: u64,
     pub read_add_gen: u64,
     pub done_add_gen: u64,
@@ -174,6 +181,10 @@ impl Ctrl {
                 timer_done_gen: 0,
                 fired: 0,
                 timer_parked: false,
+                timer_host_vid: None,
+                dbg_last_idle: (0, 0),
+                due_at_once: 0,
+                placed: vec![],
                 add_gen: 0,
                 read_add_gen: 0,
                 done_add_gen: 0,
@@ -230,6 +241,8 @@ impl Ctrl {
         g.epoch += 1;
         g.kthread.clear();
         g.timers.clear();
+        g.placed.clear();
+        g.timer_host_vid = None;
         g.trace.clear();
         g.notes.clear();
         g.tp_unparked.clear();
@@ -352,6 +365,16 @@ impl Ctrl {
         loop {
             let n = g.actors.len();
             let mut all = (0..n).all(|i| Self::settled_one(&g, i));
+            // a timer that was added (possibly due at once: a zero time-out) and that the timer thread has not
+            // looked at yet: it may fire without the clock moving
+            if all && g.vclock.is_some() {
+                let seen = g.done_add_gen >= g.add_gen || (g.timer_parked && g.park_add_gen == g.add_gen);
+                let tm_stopped = g.actors.iter().any(|a| a.st == ASt::AtPoint && a.at.as_ref().map_or(false, |p| p.site.starts_with("timer.")));
+                let hostage = g.timer_host_vid.map_or(false, |v| g.by_vid.get(&v).map_or(false, |i| matches!(g.actors[*i].st, ASt::AtPoint | ASt::Finished(_))));
+                if !seen && g.due_at_once > g.done_add_gen && !tm_stopped && !hostage && start.elapsed() < Duration::from_millis(200) {
+                    all = false;
+                }
+            }
             // a coroutine the code under test has spawned but that has not started (not enrolled) yet is
             // on its way to become one of the external actors: wait for it
             if all && g.actors.iter().any(|a| a.external && a.kernel_of.is_none() && a.st == ASt::NotStarted) {
@@ -374,9 +397,10 @@ impl Ctrl {
                 let desc: Vec<String> = g
                     .actors
                     .iter()
-                    .map(|a| format!("{}:{:?}:{:?}:k{}:h{:?}", a.name, a.st, g.co.get(&a.vid), a.kactive, a.hosting))
+                    .map(|a| format!("{}:{:?}:{:?}:k{}:h{:?}:w{}:{}", a.name, a.st, g.co.get(&a.vid), a.kactive, a.hosting, a.worker as isize, a.at.as_ref().map_or("", |p| p.site)))
                     .collect();
-                return Err(ToolError(format!("watchdog: actors never settled: {desc:?} kthread={:?}", g.kthread)));
+                let tail: Vec<String> = g.notes.iter().rev().take(40).map(|n| format!("{}:{}:{:x}", n.0 as isize, n.1, n.2)).collect();
+                return Err(ToolError(format!("watchdog: actors never settled: {desc:?} kthread={:?} timer_host={:?} parked={} notes(newest first)={tail:?}", g.kthread, g.timer_host_vid, g.timer_parked)));
             }
             let (g2, _) = self
                 .cv
@@ -501,6 +525,24 @@ impl Ctrl {
         !to.timed_out()
     }
 
+    /// after a timer has fired: wait (bounded) until the timer thread is through with everything that is
+    /// due at the new time, or is held up by the coroutine it resumed (which stopped at a point)
+    pub fn timer_drain(&self, max_ms: u64) {
+        let g = self.lock();
+        let _ = self
+            .cv
+            .wait_timeout_while(g, Duration::from_millis(max_ms), |x| {
+                let parked_quiet = x.timer_parked && x.park_add_gen == x.add_gen;
+                let polled_quiet = x.timer_done_gen >= x.tick_gen && x.done_add_gen >= x.add_gen;
+                let at_point = x.actors.iter().any(|a| a.st == ASt::AtPoint && a.at.as_ref().map_or(false, |p| p.site.starts_with("timer.")));
+                let hosted_stopped = x.timer_host_vid.map_or(false, |v| {
+                    x.by_vid.get(&v).map_or(false, |i| matches!(x.actors[*i].st, ASt::AtPoint | ASt::Finished(_)))
+                });
+                !parked_quiet && !polled_quiet && !at_point && !hosted_stopped
+            })
+            .unwrap_or_else(|p| p.into_inner());
+    }
+
     pub fn vnow(&self) -> Option<u64> {
         self.lock().vclock
     }
@@ -599,9 +641,19 @@ impl may::verif::Controller for Ctrl {
         match kind {
             "co.sched" => {
                 g.co.insert(a, CoSt::Queued);
+                // the reservation made by `place` now has an owner
+                if let Some(p) = g.placed.iter_mut().find(|p| p.0 == 0 && p.1 == b) {
+                    p.0 = a;
+                }
             }
             "co.resume" => {
                 g.co.insert(a, CoSt::Running);
+                g.placed.retain(|p| p.0 != a);
+                // the worker it occupies from now on (it may have been stolen)
+                let w = may::verif::worker_id();
+                if let Some(i) = g.by_vid.get(&a).copied() {
+                    g.actors[i].worker = w;
+                }
                 // resumed from inside an actor (nested on its stack)?
                 if let Some(h) = ctx {
                     if g.gating {
@@ -610,6 +662,9 @@ impl may::verif::Controller for Ctrl {
                 }
             }
             "co.switched" => {
+                if g.timer_host_vid == Some(a) {
+                    g.timer_host_vid = None; // the timer thread has its stack back
+                }
                 g.gen += 1;
                 ret = g.gen;
                 g.co.insert(a, CoSt::Switching(ret));
@@ -674,6 +729,12 @@ impl may::verif::Controller for Ctrl {
             "timer.add" => {
                 if g.vclock.is_some() {
                     g.timers.push(a as u64);
+                    if a as u64 <= g.vclock.unwrap_or(0) {
+                        g.due_at_once = g.add_gen + 1;
+                    }
+                    if g.gating {
+                        crate::run::dbg(format!("add_timer at {:?}: due {a} interval {b}", g.vclock));
+                    }
                 }
             }
             "timer.thread" => {
@@ -683,14 +744,21 @@ impl may::verif::Controller for Ctrl {
                 g.add_gen += 1;
             }
             "timer.idle" => {
+                if g.gating && (g.dbg_last_idle != (g.vclock.unwrap_or(0), a) || g.timer_done_gen < g.tick_gen) {
+                    g.dbg_last_idle = (g.vclock.unwrap_or(0), a);
+                    crate::run::dbg(format!("timer thread idle at {:?}: next expiry in {a} ns (read_gen {} tick_gen {})", g.vclock, g.timer_read_gen, g.tick_gen));
+                }
                 g.timer_done_gen = g.timer_read_gen;
                 g.done_add_gen = g.read_add_gen;
+                g.timer_host_vid = None;
+                ret = g.vclock.is_some() as usize;
             }
             "timer.park" => {
                 g.timer_done_gen = g.timer_read_gen;
                 g.done_add_gen = g.read_add_gen;
                 g.park_add_gen = g.read_add_gen;
                 g.timer_parked = true;
+                g.timer_host_vid = None;
             }
             "timer.unpark" => {
                 g.timer_parked = false;
@@ -700,6 +768,7 @@ impl may::verif::Controller for Ctrl {
                 // timer thread: it is no longer suspended
                 g.fired += 1;
                 g.co.insert(a, CoSt::Queued);
+                g.timer_host_vid = Some(a);
             }
             "tp.wait" => {
                 // emitted under the ThreadPark lock with no token pending: an unpark recorded for this
@@ -766,6 +835,9 @@ impl may::verif::Controller for Ctrl {
     fn now_ns(&self) -> Option<u64> {
         let mut g = self.lock();
         if IS_TIMER.with(|c| c.get()) {
+            if g.gating && g.timer_read_gen != g.tick_gen {
+                crate::run::dbg(format!("timer thread reads the clock: {:?} (tick_gen {})", g.vclock, g.tick_gen));
+            }
             g.timer_read_gen = g.tick_gen;
             g.read_add_gen = g.add_gen;
         }
@@ -773,22 +845,32 @@ impl may::verif::Controller for Ctrl {
     }
 
     fn place(&self, dflt: usize, workers: usize) -> usize {
-        let g = self.lock();
+        let mut g = self.lock();
         if !g.gating {
             return dflt;
         }
-        let held: Vec<usize> = g
+        // a worker whose coroutine is stopped at a point is blocked, and so is everything queued behind
+        // it in its global queue (which nobody steals from): avoid workers that hold an actor, and
+        // workers that are about to get one
+        let mut held: Vec<usize> = g
             .actors
             .iter()
             .filter(|a| a.is_co && matches!(a.st, ASt::AtPoint | ASt::Running) && a.worker != usize::MAX)
             .map(|a| a.worker)
             .collect();
+        held.extend(g.placed.iter().map(|p| p.1));
+        let mut pick = dflt;
         for k in 0..workers {
             let w = (dflt + k) % workers;
             if !held.contains(&w) {
-                return w;
+                pick = w;
+                break;
             }
         }
-        dflt
+        g.placed.push((0, pick));
+        if g.placed.len() > 64 {
+            g.placed.remove(0);
+        }
+        pick
     }
 }
